@@ -154,7 +154,69 @@ impl<'a> Gen<'a> {
         self.tag += 1;
         let t = self.tag;
         let pg = self.cfg.is(Dialect::Postgres);
-        let v: Value = match self.rng.below(if pg { 26 } else { 24 }) {
+        let v: Value = match self.rng.below(if pg { 40 } else { 36 }) {
+            24 => Value::ChronoDateTimeUtc(Some(Box::new(chrono::TimeZone::from_utc_datetime(
+                &chrono::Utc,
+                &chrono::NaiveDate::from_ymd_opt(2002, 1 + (t % 12) as u32, 1 + (t % 28) as u32).unwrap().and_hms_opt((t % 24) as u32, 9, (t % 60) as u32).unwrap(),
+            )))),
+            25 => Value::ChronoDateTimeLocal(Some(Box::new(chrono::TimeZone::from_utc_datetime(
+                &chrono::Local,
+                &chrono::NaiveDate::from_ymd_opt(2003, 1 + (t % 12) as u32, 1 + (t % 28) as u32).unwrap().and_hms_opt((t % 24) as u32, (t % 60) as u32, 11).unwrap(),
+            )))),
+            26 => {
+                // offsets east and west of Greenwich, with and without minutes
+                let off = *self.rng.pick(&[0i32, 3600, -5 * 3600, 5 * 3600 + 1800, -(9 * 3600 + 1800), 14 * 3600]);
+                Value::ChronoDateTimeWithTimeZone(Some(Box::new(chrono::TimeZone::from_utc_datetime(
+                    &chrono::FixedOffset::east_opt(off).unwrap(),
+                    &chrono::NaiveDate::from_ymd_opt(2004, 1 + (t % 12) as u32, 1 + (t % 28) as u32).unwrap().and_hms_opt((t % 24) as u32, (t % 60) as u32, 13).unwrap(),
+                ))))
+            }
+            27 => Value::TimeTime(Some(Box::new(time::Time::from_hms_micro((t % 24) as u8, (t % 60) as u8, 17, if t % 2 == 0 { 0 } else { (t % 1000) as u32 * 1000 + 7 }).unwrap()))),
+            28 => Value::TimeDateTime(Some(Box::new(time::PrimitiveDateTime::new(
+                time::Date::from_calendar_date(2011, time::Month::November, 1 + (t % 28) as u8).unwrap(),
+                time::Time::from_hms_micro((t % 24) as u8, 3, (t % 60) as u8, if t % 2 == 0 { 0 } else { 250_000 }).unwrap(),
+            )))),
+            29 => {
+                let (h, m) = *self.rng.pick(&[(0i8, 0i8), (2, 0), (-7, 0), (5, 30), (-3, -30)]);
+                Value::TimeDateTimeWithTimeZone(Some(Box::new(
+                    time::PrimitiveDateTime::new(
+                        time::Date::from_calendar_date(2012, time::Month::February, 1 + (t % 28) as u8).unwrap(),
+                        time::Time::from_hms_micro((t % 24) as u8, (t % 60) as u8, 19, 0).unwrap(),
+                    )
+                    .assume_offset(time::UtcOffset::from_hms(h, m, 0).unwrap()),
+                )))
+            }
+            // the NULL of every optional value type
+            30 | 31 | 32 => match self.rng.below(24) {
+                0 => Value::Bool(None),
+                1 => Value::TinyInt(None),
+                2 => Value::SmallInt(None),
+                3 => Value::BigInt(None),
+                4 => Value::TinyUnsigned(None),
+                5 => Value::SmallUnsigned(None),
+                6 => Value::Unsigned(None),
+                7 => Value::BigUnsigned(None),
+                8 => Value::Float(None),
+                9 => Value::Double(None),
+                10 => Value::Bytes(None),
+                11 => Value::Char(None),
+                12 => Value::Json(None),
+                13 => Value::ChronoDate(None),
+                14 => Value::ChronoTime(None),
+                15 => Value::ChronoDateTime(None),
+                16 => Value::ChronoDateTimeUtc(None),
+                17 => Value::ChronoDateTimeLocal(None),
+                18 => Value::ChronoDateTimeWithTimeZone(None),
+                19 => self.rng.pick(&[Value::TimeDate(None), Value::TimeTime(None), Value::TimeDateTime(None), Value::TimeDateTimeWithTimeZone(None)]).clone(),
+                20 => self.rng.pick(&[Value::Decimal(None), Value::BigDecimal(None)]).clone(),
+                21 => Value::Uuid(None),
+                22 => self.rng.pick(&[Value::IpNetwork(None), Value::MacAddress(None)]).clone(),
+                _ => Value::String(None),
+            },
+            33 => Value::BigInt(Some(if t % 2 == 0 { i64::MIN } else { i64::MAX - t })),
+            34 => Value::Double(Some(-(t as f64) - 0.5)),
+            38 => Value::Array(sea_query::ArrayType::Int, None),
+            39 => Value::Vector(None),
             16 => Value::ChronoDate(Some(Box::new(chrono::NaiveDate::from_ymd_opt(2000 + (t % 30) as i32, 1 + (t % 12) as u32, 1 + (t % 28) as u32).unwrap()))),
             17 => Value::ChronoDateTime(Some(Box::new(
                 chrono::NaiveDate::from_ymd_opt(2001, 2, 3).unwrap().and_hms_opt((t % 24) as u32, (t % 60) as u32, 7).unwrap(),
@@ -165,8 +227,8 @@ impl<'a> Gen<'a> {
             21 => Value::TimeDate(Some(Box::new(time::Date::from_calendar_date(2010 + (t % 10) as i32, time::Month::March, 1 + (t % 28) as u8).unwrap()))),
             22 => Value::IpNetwork(Some(Box::new(ipnetwork::IpNetwork::new(std::net::IpAddr::V4(std::net::Ipv4Addr::new(10, 0, (t % 250) as u8, 0)), 24).unwrap()))),
             23 => Value::MacAddress(Some(Box::new(mac_address::MacAddress::new([1, 2, 3, 4, 5, (t % 250) as u8])))),
-            24 => Value::Array(sea_query::ArrayType::Int, Some(Box::new(if t % 4 == 0 { vec![] } else { vec![Value::Int(Some(t as i32)), Value::Int(Some(7))] }))),
-            25 => Value::Vector(Some(Box::new(pgvector::Vector::from(vec![0.5f32, t as f32])))),
+            36 => Value::Array(sea_query::ArrayType::Int, Some(Box::new(if t % 4 == 0 { vec![] } else { vec![Value::Int(Some(t as i32)), Value::Int(Some(7))] }))),
+            37 => Value::Vector(Some(Box::new(pgvector::Vector::from(vec![0.5f32, t as f32])))),
             0 => Value::Bool(Some(t % 2 == 0)),
             1 => Value::TinyInt(Some((t % 100) as i8)),
             2 => Value::SmallInt(Some(t as i16)),
@@ -179,7 +241,15 @@ impl<'a> Gen<'a> {
             9 => Value::Double(Some(if t % 2 == 0 { t as f64 / 3.0 } else { t as f64 + 0.25 })),
             10 => Value::Bytes(Some(Box::new(vec![(t % 256) as u8, 0, 39, 92]))),
             11 => Value::Char(Some(*self.rng.pick(&['a', '\'', 'é', '?', '\\', '\n', '"', '\t', '𝄞']))),
-            12 => Value::Json(Some(Box::new(serde_json::json!({"t": t, "q": "?'$1"})))),
+            // JSON documents of every kind, the document `null` included (a present value, not SQL NULL)
+            12 => Value::Json(Some(Box::new(match self.rng.below(6) {
+                0 => serde_json::Value::Null,
+                1 => serde_json::json!("s'?$1\\"),
+                2 => serde_json::json!(t as f64 + 0.5),
+                3 => serde_json::json!([t, "a", null]),
+                4 => serde_json::json!(t % 2 == 0),
+                _ => serde_json::json!({"t": t, "q": "?'$1"}),
+            }))),
             13 => Value::String(None),
             14 => Value::Int(None),
             _ => Value::Uuid(Some(Box::new(uuid::Uuid::from_u128(t as u128)))),
@@ -540,8 +610,10 @@ impl<'a> Gen<'a> {
                 (From_::Sub(Box::new(sq), alias.clone()), Rel { name: alias, cols, key: vec![] })
             }
             1 if self.cfg.dialect.is_some() && self.rng.coin() => {
-                // a VALUES list as a table: 1-3 rows of (integer, text); the engines name its columns themselves
+                // a VALUES list as a table: 1-3 rows of (integer), (integer, text) or (integer, text, integer);
+                // the engines name its columns themselves
                 let nrows = 1 + self.rng.below(3) as usize;
+                let ncols = *self.rng.pick(&[1usize, 2, 2, 3]);
                 let mut rows = vec![];
                 for _ in 0..nrows {
                     let i = match self.int_val() {
@@ -552,11 +624,16 @@ impl<'a> Gen<'a> {
                         X::Text(t) => t,
                         _ => "x".into(),
                     };
-                    rows.push(vec![Value::BigInt(Some(i)), Value::String(Some(Box::new(t)))]);
+                    let j = match self.int_val() {
+                        X::Int(v) => v,
+                        _ => 2,
+                    };
+                    let row = vec![Value::BigInt(Some(i)), Value::String(Some(Box::new(t))), Value::BigInt(Some(j))];
+                    rows.push(row[..ncols].to_vec());
                 }
                 let alias = self.fresh("v");
-                let names = if self.cfg.is(Dialect::Mysql) { ["column_0", "column_1"] } else { ["column1", "column2"] };
-                let cols = vec![(names[0].to_string(), K::I), (names[1].to_string(), K::T)];
+                let names = if self.cfg.is(Dialect::Mysql) { ["column_0", "column_1", "column_2"] } else { ["column1", "column2", "column3"] };
+                let cols: Vec<(String, K)> = vec![(names[0].to_string(), K::I), (names[1].to_string(), K::T), (names[2].to_string(), K::I)][..ncols].to_vec();
                 (From_::Values(rows, alias.clone()), Rel { name: alias, cols, key: vec![] })
             }
             2 if (self.cfg.is(Dialect::Sqlite) || self.cfg.is(Dialect::Postgres)) && self.rng.coin() => {
@@ -745,7 +822,20 @@ impl<'a> Gen<'a> {
             return w;
         }
         if self.rng.coin() {
-            w.partition.push(self.col_of(scope, Some(K::I)).unwrap());
+            let c = self.col_of(scope, Some(K::I)).unwrap();
+            match &c {
+                // the partition key written as a custom fragment (partition_by_customs)
+                X::QCol(t, n) if self.rng.chance(1, 8) && t.chars().chain(n.chars()).all(|ch| ch.is_ascii_alphanumeric() || ch == '_') => {
+                    w.partition.push(X::Cust(format!("{t}.{n}")));
+                }
+                _ => w.partition.push(c),
+            }
+            if self.rng.chance(1, 4) {
+                let c2 = self.col_of(scope, None).unwrap();
+                if !w.partition.contains(&c2) {
+                    w.partition.push(c2);
+                }
+            }
         }
         // total order inside the partition: a column then every key of the scope
         if self.rng.chance(3, 4) {
@@ -862,6 +952,10 @@ impl<'a> Gen<'a> {
         // `CASE .. END NULLS LAST` of Postgres/SQLite is a no-op (the CASE is never NULL) — listed finding
         // KF-C09-field-order-nulls, pinned probe in C09; the combination is not generated for portable statements
         let nulls_first = if allow_nulls && (self.cfg.dialect.is_some() || !matches!(dir, Dir::Field(_))) && self.rng.chance(1, 3) { Some(self.rng.coin()) } else { None };
+        if c.chars().all(|ch| ch.is_ascii_alphanumeric()) && !matches!(dir, Dir::Field(_)) && self.rng.chance(1, 10) {
+            // the output name written as a custom fragment (order_by_customs)
+            return Ord_ { expr: X::Cust(c), dir, nulls_first };
+        }
         Ord_ { expr: X::Col(crate::util::intern(&c)), dir, nulls_first }
     }
 
@@ -968,6 +1062,17 @@ impl<'a> Gen<'a> {
     }
 
     fn text_level_extras(&mut self, s: &mut Sel) {
+        if s.unions.is_empty() && s.groups.is_empty() && s.havings.is_empty() && s.distinct.is_none() && self.rng.chance(1, 12) {
+            // every column of one relation, as one more item
+            let name = match s.from.first() {
+                Some(From_::Table(t, al)) | Some(From_::SchemaTable(_, t, al)) => Some(al.clone().unwrap_or_else(|| t.clone())),
+                Some(From_::Sub(_, al)) | Some(From_::Values(_, al)) | Some(From_::Func(_, _, al)) => Some(al.clone()),
+                None => None,
+            };
+            if let (Some(n), false) = (name, s.items.iter().any(|i| matches!(i.expr, X::Func(..)) && i.window.is_none())) {
+                s.items.push(Item { expr: X::QStar(n), alias: None, window: None });
+            }
+        }
         match self.cfg.dialect {
             Some(Dialect::Mysql) => {
                 if self.rng.chance(1, 8) && !s.from.is_empty() {
